@@ -1457,7 +1457,17 @@ impl Incentive {
                     total_paid += paid[a];
                 }
                 // C13 claim = quote
-                let unclaimed_epochs = op.epoch - last_claim.unwrap_or(0);
+                // the number of epochs the claim loop has to go through: from the epoch after the last
+                // successful claim, or — for an address that never claimed — from the earlier of a flow's
+                // start epoch (which may lie before the contract's first epoch) and the address's first
+                // weight entry (bounded below by the contract's first epoch)
+                let unclaimed_epochs = match last_claim {
+                    Some(l) => op.epoch - l,
+                    None => {
+                        let first = pre.flows.iter().map(|f| f.start).min().unwrap_or(op.epoch).min(cfg.e0);
+                        op.epoch + 1 - first.min(op.epoch)
+                    }
+                };
                 match quoted {
                     Some(Q::Ok(q)) => {
                         let mut qa = [0i128; NA];
